@@ -58,8 +58,9 @@ type system struct {
 }
 
 var (
-	sysOnce sync.Once
-	theSys  *system
+	attrOnce sync.Once
+	sysOnce  sync.Once
+	theSys   *system
 )
 
 func attrsOf(alpha int, a abepol.Assign) tkn20.Attributes {
@@ -75,10 +76,37 @@ func attrsOf(alpha int, a abepol.Assign) tkn20.Attributes {
 	return at
 }
 
-func getSys(t *testing.T) *system {
-	sysOnce.Do(func() {
+// getAttrs builds the assignments and attribute sets only (no keys).
+func getAttrs() *system {
+	attrOnce.Do(func() {
 		s := &system{}
 		theSys = s
+		na := len(alphabets)
+		s.assign = make([][]abepol.Assign, na)
+		s.attrs = make([][]tkn20.Attributes, na)
+		for al := range alphabets {
+			if alphabets[al].NumAssign() != nAssign {
+				s.setupFatal = "alphabet size"
+				return
+			}
+			s.assign[al] = make([]abepol.Assign, nAssign)
+			s.attrs[al] = make([]tkn20.Attributes, nAssign)
+			for i := 0; i < nAssign; i++ {
+				s.assign[al][i] = alphabets[al].Assignment(i)
+				s.attrs[al][i] = attrsOf(al, s.assign[al][i])
+			}
+		}
+	})
+	return theSys
+}
+
+func getSys(t *testing.T) *system {
+	getAttrs()
+	sysOnce.Do(func() {
+		s := theSys
+		if s.setupFatal != "" {
+			return
+		}
 		var err error
 		s.pk, s.msk, err = tkn20.Setup(lib.NewRng("c20/setup", 0))
 		if err != nil {
@@ -117,18 +145,10 @@ func getSys(t *testing.T) *system {
 			lib.Count("roundtrip-msk")
 		}
 		na := len(alphabets)
-		s.assign = make([][]abepol.Assign, na)
-		s.attrs = make([][]tkn20.Attributes, na)
 		s.keys = make([][]tkn20.AttributeKey, na)
 		s.keys2 = make([][]tkn20.AttributeKey, na)
 		s.keyb = make([][][]byte, na)
 		for al := range alphabets {
-			if alphabets[al].NumAssign() != nAssign {
-				s.setupFatal = "alphabet size"
-				return
-			}
-			s.assign[al] = make([]abepol.Assign, nAssign)
-			s.attrs[al] = make([]tkn20.Attributes, nAssign)
 			s.keys[al] = make([]tkn20.AttributeKey, nAssign)
 			s.keys2[al] = make([]tkn20.AttributeKey, nAssign)
 			s.keyb[al] = make([][]byte, nAssign)
@@ -136,9 +156,7 @@ func getSys(t *testing.T) *system {
 		var mu sync.Mutex
 		lib.Par(na*nAssign, func(j int) {
 			al, i := j/nAssign, j%nAssign
-			as := alphabets[al].Assignment(i)
-			s.assign[al][i] = as
-			s.attrs[al][i] = attrsOf(al, as)
+			as := s.assign[al][i]
 			k, err := s.msk.KeyGen(lib.NewRng("c20/keygen", j), s.attrs[al][i])
 			if err != nil {
 				mu.Lock()
@@ -511,10 +529,10 @@ func oneFormula(s *system, c formulaCase) {
 	}
 }
 
-// flipsFor lists the bit positions to alter: every bit of every length field
-// and of the version string, plus nSample bits spread over the other regions
+// flipsFor lists the bit positions to alter: every bit (lenAll) or two sampled
+// bits of every length field and of the version string, plus nSample bits spread over the other regions
 // (all bits when all is set).
-func flipsFor(r *lib.Rng, ct []byte, lay *abepol.Layout, nSample int, all bool) []int {
+func flipsFor(r *lib.Rng, ct []byte, lay *abepol.Layout, nSample int, all, lenAll bool) []int {
 	if all || lay == nil {
 		if all {
 			out := make([]int, 8*len(ct))
@@ -533,8 +551,13 @@ func flipsFor(r *lib.Rng, ct []byte, lay *abepol.Layout, nSample int, all bool) 
 	var bulk []abepol.Region
 	for _, rg := range lay.Regions {
 		if strings.HasSuffix(rg.Name, "-len") || rg.Name == "version" {
-			for b := rg.Off * 8; b < (rg.Off+rg.Len)*8; b++ {
-				out = append(out, b)
+			if lenAll {
+				for b := rg.Off * 8; b < (rg.Off+rg.Len)*8; b++ {
+					out = append(out, b)
+				}
+			} else {
+				// two bits of every length field / of the version string
+				out = append(out, rg.Off*8+r.Intn(rg.Len*8), rg.Off*8+r.Intn(rg.Len*8))
 			}
 		} else if rg.Len > 0 {
 			bulk = append(bulk, rg)
@@ -550,13 +573,19 @@ func flipsFor(r *lib.Rng, ct []byte, lay *abepol.Layout, nSample int, all bool) 
 func tamper(s *system, c formulaCase, vname string, ct []byte, lay *abepol.Layout, msg []byte, text string, sat, unsat int, all bool) {
 	al := c.alpha
 	r := lib.NewRng("c20/tamper/"+vname, c.idx)
-	flips := flipsFor(r, ct, lay, c.tamper, all)
-	if all && !lib.Thorough() && lay != nil {
-		// quick tier: every bit outside the group elements, every 8th bit
-		// (rotating with the byte offset) inside them
+	flips := flipsFor(r, ct, lay, c.tamper, all, c.idx%8 == 0)
+	if all && lay != nil && (!lib.Thorough() || vname == "v137") {
+		// Inside the group elements (identical bytes in both framings):
+		// thorough = every bit in the v1.3.8 framing, every 8th bit in the
+		// v1.3.7 framing; quick = every 8th / every 32nd bit.  Everything
+		// outside the group elements: every bit, both tiers, both framings.
+		step := 8
+		if !lib.Thorough() && vname == "v137" {
+			step = 32
+		}
 		kept := flips[:0]
 		for _, b := range flips {
-			if lay.RegionOf(b/8) != "c1-points" || b%8 == (b/8)%8 {
+			if lay.RegionOf(b/8) != "c1-points" || b%step == (b/step)%step {
 				kept = append(kept, b)
 			}
 		}
@@ -649,11 +678,11 @@ func TestVerifABE(t *testing.T) {
 			add(0, n, "exhaustive-2-leaves", 0)
 		}
 	}
-	nRandom := lib.Scale(100, 800)
+	nRandom := lib.Scale(60, 600)
 	for j := 0; j < nRandom; j++ {
 		al := j % len(alphabets)
 		n := abepol.Gen(lib.NewRng("c20/formula", j), alphabets[al], 7)
-		add(al, n, "random", lib.Scale(24, 32))
+		add(al, n, "random", lib.Scale(16, 32))
 	}
 	lib.Par(len(cases), func(i int) { oneFormula(s, cases[i]) })
 	lib.Flag("c20.formulas", len(cases))
@@ -943,7 +972,7 @@ func TestVerifABEGolden(t *testing.T) {
 		}
 		// alterations of the genuine files (thorough: every bit)
 		r := lib.NewRng("c20/golden-tamper/"+f, 0)
-		flips := flipsFor(r, ct, lay, 96, lib.Thorough())
+		flips := flipsFor(r, ct, lay, 96, lib.Thorough(), true)
 		lib.Par(len(flips), func(j int) {
 			bad := lib.FlipBit(ct, flips[j])
 			region := "?"
@@ -975,7 +1004,10 @@ func TestVerifABEGolden(t *testing.T) {
 // formulas with up to 7 leaves, in the randomised and the canonical layout.
 func TestVerifPolicyLanguage(t *testing.T) {
 	lib.Mandatory("lang-formulas", "lang-decisive:negated-leaf-absent-label", "lang-decisive:and-or-swap-under-not", "lang-decisive:leaf-flip-under-not")
-	s := getSys(t)
+	s := getAttrs()
+	if s.setupFatal != "" {
+		t.Fatalf("harness: %s", s.setupFatal)
+	}
 	n := lib.Scale(3000, 150000)
 	lib.Par(n, func(j int) {
 		al := j % len(alphabets)
